@@ -196,7 +196,9 @@ pub fn run_case(c: &Case) -> Result<(), (String, String)> {
 /// before anything executes.
 const PLACES: [&str; 6] = ["top-level", "loop-body", "if-body", "else-body", "scope", "loop>else>scope"];
 
-fn check_missing_evaluator(want_a: bool, place: usize) -> Option<(String, String)> {
+const ENTRIES: [&str; 3] = ["optimize_with", "optimize", "run"];
+
+fn check_missing_evaluator(want_a: bool, place: usize, entry: usize) -> Option<(String, String)> {
     let executed = Arc::new(AtomicU32::new(0));
     let e2 = executed.clone();
     let problem = RealP::new(1, -1.0, 1.0, FKind::Sphere, Instr::new());
@@ -214,20 +216,36 @@ fn check_missing_evaluator(want_a: bool, place: usize) -> Option<(String, String
         4 => builder.scope_(ev).build(),
         _ => builder.while_(cond(), move |b| b.if_else_(cond(), |b| b, move |b| b.scope_(ev))).build(),
     };
-    let r = catch(|| {
-        config.optimize_with(&problem, |st| {
-            st.insert(crate::engine::tape::scripted_random(0));
-            // the *other* identifier is registered
+    let r = catch(|| match entry {
+        // optimize registers the given evaluator under the default identifier: only a step asking for A misses its evaluator
+        1 => config.optimize(&problem, Sequential::<RealP>::new()).map(|_| ()),
+        2 => {
+            let mut st: mahf::State<RealP> = mahf::State::new();
+            st.insert(mahf::Random::new(3));
+            st.insert(mahf::state::common::Populations::<RealP>::new());
+            st.insert(mahf::logging::Log::new());
             if want_a {
                 st.insert_evaluator(Sequential::<RealP>::new());
             } else {
                 st.insert_evaluator_as::<A>(Sequential::<RealP>::new());
             }
-            Ok(())
-        })
+            config.run(&problem, &mut st)
+        }
+        _ => config
+            .optimize_with(&problem, |st| {
+                st.insert(mahf::Random::new(3));
+                // the *other* identifier is registered
+                if want_a {
+                    st.insert_evaluator(Sequential::<RealP>::new());
+                } else {
+                    st.insert_evaluator_as::<A>(Sequential::<RealP>::new());
+                }
+                Ok(())
+            })
+            .map(|_| ()),
     });
-    let head = format!("C06 missing-evaluator step-in={}", PLACES[place.min(5)]);
-    let ctx = |w: String| format!("configuration with an evaluation step (identifier {}) in {} while only the other identifier is registered: {}", if want_a { "A" } else { "Global" }, PLACES[place.min(5)], w);
+    let head = format!("C06 missing-evaluator{} step-in={}", if entry == 0 { String::new() } else { format!(" entry={}", ENTRIES[entry]) }, PLACES[place.min(5)]);
+    let ctx = |w: String| format!("configuration with an evaluation step (identifier {}) in {} while only the other identifier is registered, started through {}: {}", if want_a { "A" } else { "Global" }, PLACES[place.min(5)], ENTRIES[entry], w);
     match r {
         Err(p) => Some((format!("{} panic", head), ctx(format!("panicked: {}", p)))),
         Ok(Ok(_)) => Some((format!("{} run-succeeded", head), ctx("the run returned Ok".into()))),
@@ -281,6 +299,38 @@ fn check_deep_evaluator(depth: usize, passes: u32, id_a: bool) -> Option<(String
             }
         }
     }
+}
+
+/// A configuration run again on the state of an earlier run counts from zero again: after every run the
+/// evaluation counter equals the objective-function calls of that run.
+fn check_rerun_on_same_state(runs: usize, pop: u32, passes: u32) -> Option<(String, String)> {
+    use mahf::conditions::LessThanN;
+    let problem = RealP::new(1, -1.0, 1.0, FKind::Sphere, Instr::new());
+    let config = Configuration::<RealP>::builder().do_(mahf::components::initialization::RandomSpread::new(pop)).evaluate().while_(LessThanN::iterations(passes), |b| b.evaluate()).build();
+    let mut st: mahf::State<RealP> = mahf::State::new();
+    st.insert(mahf::Random::new(11));
+    st.insert(mahf::state::common::Populations::<RealP>::new());
+    st.insert(mahf::logging::Log::new());
+    st.insert_evaluator(Sequential::<RealP>::new());
+    let ctx = |w: String| format!("{} runs of [RandomSpread({}); evaluate; {} x evaluate] on one state: {}", runs, pop, passes, w);
+    let mut before = 0u64;
+    for k in 0..runs {
+        match catch(|| config.run(&problem, &mut st)) {
+            Err(p) => return Some(("C06 rerun-on-same-state panic".into(), ctx(format!("run {} panicked: {}", k, p)))),
+            Ok(Err(e)) => return Some(("C06 rerun-on-same-state error".into(), ctx(format!("run {}: {:#}", k, e)))),
+            Ok(Ok(())) => {}
+        }
+        let calls = problem.instr.calls() - before;
+        before = problem.instr.calls();
+        let counted = st.try_get_value::<Evaluations>().ok();
+        if counted.map(|c| c as u64) != Some(calls) {
+            return Some((
+                format!("C06 rerun-on-same-state {} evaluations!=calls", if k == 0 { "first-run" } else { "later-run" }),
+                ctx(format!("after run {} evaluations() reports {:?}, the objective function was called {} times in that run", k, counted, calls)),
+            ));
+        }
+    }
+    None
 }
 
 pub fn cases(thorough: bool) -> Vec<Case> {
@@ -355,8 +405,18 @@ pub fn run_part_a(rep: &mut Report) {
             p.traces += 1;
             p.states += 1;
             p.outcome("missing-evaluator");
-            if let Some((s, d)) = check_missing_evaluator(want_a, place) {
-                p.violate(s, d, json!({"kind": "missing", "want_a": want_a, "place": place}));
+            for entry in 0..ENTRIES.len() {
+                // the scope placements are a recorded finding of the scope itself, whatever the entry point
+                if (entry == 1 && !want_a) || (entry > 0 && place >= 4) {
+                    continue;
+                }
+                if entry > 0 {
+                    p.transitions += 1;
+                    p.traces += 1;
+                }
+                if let Some((s, d)) = check_missing_evaluator(want_a, place, entry) {
+                    p.violate(s, d, json!({"kind": "missing", "want_a": want_a, "place": place, "entry": entry}));
+                }
             }
         }
     }
@@ -370,6 +430,17 @@ pub fn run_part_a(rep: &mut Report) {
                 if let Some((s, d)) = check_deep_evaluator(depth, passes, id_a) {
                     p.violate(s, d, json!({"kind": "deep", "depth": depth, "passes": passes, "id_a": id_a}));
                 }
+            }
+        }
+    }
+    for runs in 1..=3usize {
+        for (pop, passes) in [(2u32, 1u32), (3, 2), (1, 0)] {
+            p.transitions += runs as u64;
+            p.traces += 1;
+            p.states += 1;
+            p.outcome("rerun");
+            if let Some((s, d)) = check_rerun_on_same_state(runs, pop, passes) {
+                p.violate(s, d, json!({"kind": "rerun", "runs": runs, "pop": pop, "passes": passes}));
             }
         }
     }
@@ -448,7 +519,8 @@ pub fn replay_a(case: &Value) -> Result<Vec<(String, String)>, String> {
             Ok(r.violations().into_iter().map(|v| (v.sig.clone(), v.detail.clone())).collect())
         }
         "deep" => Ok(check_deep_evaluator(case["depth"].as_u64().unwrap_or(0) as usize, case["passes"].as_u64().unwrap_or(1) as u32, case["id_a"].as_bool().unwrap_or(false)).into_iter().collect()),
-        "missing" => Ok(check_missing_evaluator(case["want_a"].as_bool().unwrap_or(false), case["place"].as_u64().unwrap_or(0) as usize).into_iter().collect()),
+        "rerun" => Ok(check_rerun_on_same_state(case["runs"].as_u64().unwrap_or(1) as usize, case["pop"].as_u64().unwrap_or(1) as u32, case["passes"].as_u64().unwrap_or(1) as u32).into_iter().collect()),
+        "missing" => Ok(check_missing_evaluator(case["want_a"].as_bool().unwrap_or(false), case["place"].as_u64().unwrap_or(0) as usize, case["entry"].as_u64().unwrap_or(0) as usize).into_iter().collect()),
         "evalstep" => {
             let want = case["case"].as_str().ok_or("no case")?;
             for c in cases(true).into_iter().chain(cases(false)) {
